@@ -1,5 +1,11 @@
 """C11 — model -> generated MxlPy source -> model preserves behaviour, or fails (DESIGN §6/C11).
 
+Input classes (restated in `uses` / `input_class` independently of the key names): the function of an initial
+assignment or computed coefficient always gets a definition of its own; the functions of derived quantities and
+reactions are filed under their `__name__` (last use wins).  dup = an emitted definition would repeat a parameter
+-> generation raises ValueError; collide = a derived / reaction use whose `__name__` belongs to a different
+function's emitted definition -> F-C11-1.
+
 Per generated case (content whose functions have chosen `__name__`s: unique, shared between components with
 different argument lists, or deliberately colliding; queries):
   S = the original real model's answers to the core queries (names/kinds, initial values, parameter values,
@@ -31,47 +37,79 @@ PROPS = ["MxlVerif.Props.C11"]
 # --------------------------------------------------------------------------- the code's keys
 
 
-def entries(content):
-    """(key, function identity, args) in the order the generator fills its `functions` dict.
-    Generated keys (init_<f>, <rxn>_stoich_<f>) are extended with "_" until no derived / reaction function
-    has that name."""
+def uses(content):
+    """every function slot of the model in the order the generator visits them: (kind, name, identity, args).
+    kind "gen": the function of an initial assignment or of a computed stoichiometric coefficient - the generator
+    files its definition under a name of its own (`init_<f>` / `<rxn>_stoich_<f>`, extended with "_" until no other
+    function has it: `_free_name` hands every name out once), so every such use has its own emitted definition.
+    kind "comp": the function of a derived quantity or a reaction - filed under its `__name__`, a later use with the
+    same name replaces the definition."""
     out = []
-    taken = {f["name"] for _, f in content["derived"]} | {r["name"] for _, r in content["rxns"]}
 
     def ident(f):
         return (f["name"], json.dumps(f["e"]), len(f["args"]))
 
-    def free(name):
-        while name in taken:
-            name += "_"
-        return name
-
     for k, v in content["vars"]:
         if "ia" in v:
-            out.append((free(f"init_{v['ia']['name']}"), ident(v["ia"]), list(v["ia"]["args"])))
+            out.append(("gen", v["ia"]["name"], ident(v["ia"]), list(v["ia"]["args"])))
     for k, v in content["pars"]:
         if "ia" in v:
-            out.append((free(f"init_{v['ia']['name']}"), ident(v["ia"]), list(v["ia"]["args"])))
+            out.append(("gen", v["ia"]["name"], ident(v["ia"]), list(v["ia"]["args"])))
     for k, f in content["derived"]:
-        out.append((f["name"], ident(f), list(f["args"])))
+        out.append(("comp", f["name"], ident(f), list(f["args"])))
     for k, r in content["rxns"]:
-        out.append((r["name"], ident(r), list(r["args"])))
+        out.append(("comp", r["name"], ident(r), list(r["args"])))
         for cpd, cj in r["st"]:
             if "c" not in cj:
-                out.append((free(f"{k}_stoich_{cj['name']}"), ident(cj), list(cj["args"])))
+                out.append(("gen", cj["name"], ident(cj), list(cj["args"])))
     return out
 
 
 def input_class(content):
-    """(dup, collide): some emitted definition (the last use under its key) would repeat a parameter name /
-    some use refers to a key whose emitted definition comes from a different function"""
-    ents = entries(content)
+    """(dup, collide): some emitted definition would repeat a parameter name (any initial-assignment / coefficient
+    use, or the last use under a derived / reaction function name) / some derived quantity or reaction refers to a
+    `__name__` whose emitted definition comes from a different function"""
+    us = uses(content)
     winner = {}
-    for key, idn, args in ents:
-        winner[key] = (idn, args)
-    dup = any(len(set(args)) != len(args) for _, args in winner.values())
-    collide = any(winner[key][0] != idn for key, idn, _ in ents)
+    for kind, name, idn, args in us:
+        if kind == "comp":
+            winner[name] = (idn, args)
+    dup = (any(len(set(args)) != len(args) for kind, _, _, args in us if kind == "gen")
+           or any(len(set(args)) != len(args) for _, args in winner.values()))
+    collide = any(winner[name][0] != idn for kind, name, idn, _ in us if kind == "comp")
     return dup, collide
+
+
+def expected_def_keys(content):
+    """keys of the emitted definitions in emission order, restated from the documentation of `_free_name` (a generated
+    name is extended until neither a derived / reaction function nor an earlier generated name has it)"""
+    taken = {f["name"] for _, f in content["derived"]} | {r["name"] for _, r in content["rxns"]}
+    keys = []
+
+    def free(name):
+        while name in taken:
+            name += "_"
+        taken.add(name)
+        return name
+
+    def put(key):
+        if key not in keys:
+            keys.append(key)
+
+    for k, v in content["vars"]:
+        if "ia" in v:
+            put(free(f"init_{v['ia']['name']}"))
+    for k, v in content["pars"]:
+        if "ia" in v:
+            put(free(f"init_{v['ia']['name']}"))
+    for k, f in content["derived"]:
+        put(f["name"])
+    for k, r in content["rxns"]:
+        put(r["name"])
+        for cpd, cj in r["st"]:
+            if "c" not in cj:
+                put(free(f"{k}_stoich_{cj['name']}"))
+    return keys
 
 
 def classify(content):
@@ -506,6 +544,11 @@ def judge_phase(ctx, case, R, M, tag=""):
                     ctx.add_drift(dict(base, queries=[]), heads, Mp["ok"]["defs"], "definition heads of an unparsable source")
         else:
             ctx.add_drift(dict(base, queries=[]), R["shape"], Mp, "Lean generator fails where the code emits source")
+    # ---- keys of the emitted definitions: every generated name is handed out once
+    if "err" not in R["shape"]:
+        Mk = [d[0] for d in M["program"]["ok"]["defs"]] if M is not None and "ok" in M["program"] else None
+        ctx.judge(dict(base, queries=[]), [d[0] for d in R["shape"]["defs"]], expected_def_keys(case["content"]), Mk,
+                  what="keys of the emitted definitions" + tag)
     # ---- names, kinds, wiring
     ctx.judge(dict(base, queries=[]), R["R_struct"], R["S_struct"], None,
               what="component names / kinds / arguments / plain values" + tag)
@@ -569,6 +612,28 @@ def _rich(name, args, e):
 
 
 CORPUS += [
+    # class repaired by `fix: a function name generated ... is taken from then on`: initial assignments with `a` and `a_`
+    # next to a derived function `init_a` (keys init_a_, init_a__), and two different coefficient functions both called
+    # `f2` in one reaction (keys r_stoich_f2, r_stoich_f2_; the first with a repeated argument made generation raise)
+    {"content": {"vars": [["x", {"v": "1"}], ["y", {"v": "2"}]],
+                 "pars": [["k", {"v": "3"}], ["q1", {"ia": {"args": ["k", "x"], "e": _F["add"], "name": "a"}}],
+                          ["q2", {"ia": {"args": ["k", "x"], "e": _F["mul"], "name": "a_"}}]],
+                 "derived": [["d1", {"args": ["q1", "q2"], "e": _F["sub"], "name": "init_a"}]],
+                 "rxns": [["r", {"args": ["d1", "k"], "e": _F["sub"], "name": "g",
+                                 "st": [["x", {"args": ["k", "q1"], "e": _F["add"], "name": "f2"}],
+                                        ["y", {"args": ["k", "q2"], "e": _F["mul"], "name": "f2"}]]}]]}},
+    # two different initial-assignment functions with the same __name__ (formerly part of F-C11-1): init_f, init_f_
+    {"content": {"vars": [["x", {"v": "1"}]],
+                 "pars": [["k", {"v": "3"}], ["q1", {"ia": {"args": ["k", "x"], "e": _F["add"], "name": "f"}}],
+                          ["q2", {"ia": {"args": ["k", "x"], "e": _F["mul"], "name": "f"}}]],
+                 "derived": [["d1", {"args": ["q1", "q2"], "e": _F["sub"], "name": "h"}]],
+                 "rxns": [["r", {"args": ["d1", "k"], "e": _F["sub"], "name": "g", "st": [["x", {"c": "-1"}]]}]]}},
+    # a computed coefficient whose own use repeats an argument: generation raises, although a later use under the same
+    # generated base name does not (every generated definition is emitted)
+    {"content": {"vars": [["x", {"v": "1"}], ["y", {"v": "2"}]], "pars": [["k", {"v": "3"}]], "derived": [],
+                 "rxns": [["r", {"args": ["x", "k"], "e": _F["mul"], "name": "g",
+                                 "st": [["x", {"args": ["k", "k"], "e": _F["add"], "name": "f2"}],
+                                        ["y", {"args": ["k", "x"], "e": _F["mul"], "name": "f2"}]]}]]}},
     # wider fragment: x % (1/p) was printed `(x % 1/p)` (former F-C11-4, repaired: `(x % (1/p))`)
     {"content": {"vars": [["x", {"v": "4"}]], "pars": [["p", {"v": "4"}]],
                  "derived": [["d", _rich("f", ["x", "p"], ["%", ["/", ["c", "125"], ["a", 0]], ["/", ["a", 1], ["*", ["a", 1], ["a", 1]]]])]],
